@@ -244,18 +244,29 @@ class IndependentAlphaConvert(_Alpha):
     file = "funsor/terms.py"
     qualname = "Independent._alpha_convert"
     bound = {"i": "Bint[n]", "xi": "Real"}
+    mutants = (("the fresh output name is renamed too", "        bint_var = str(alpha_subs.get(bint_var, bint_var))", "        reals_var = str(alpha_subs.get(reals_var, reals_var))\n        bint_var = str(alpha_subs.get(bint_var, bint_var))"),)
 
-    def make_self(self):
+    def structures(self, tier):
+        for a in self.alphas():
+            yield "rename=%s" % (",".join(sorted(a))), a
+        # the user may give the bound diag variable the SAME name as the fresh output variable: Independent(f, "x", "i", "x")
+        yield "rename=i,x with diag_var == reals_var", {"i": "i__BOUND_7", "x": "x__BOUND_8", "__collide__": True}
+
+    def build(self, p, alpha):
+        alpha = dict(alpha)
+        collide = alpha.pop("__collide__", False)
         s = Obj()
-        s.bound = dict(self.bound)
-        s.fn = Body("fn", [("i", "Bint[n]"), ("xi", "Real"), ("z", "Real")])
-        s._ast_values = (s.fn, "x", "i", "xi")
-        return s
+        dv = "x" if collide else "xi"
+        s.bound = {"i": "Bint[n]", dv: "Real"}
+        s.fn = Body("fn", [("i", "Bint[n]"), (dv, "Real"), ("z", "Real")])
+        s._ast_values = (s.fn, "x", "i", dv)
+        return Ctx(args=(s, dict(alpha)), namespace=NS, self_=s, alpha=alpha, dv=dv)
 
     def ensures(self, ctx, result):
         s = ctx.self_
         M = M_of(ctx.alpha, s.fn.inputs)
-        return [("body_and_binder_names_renamed", result == (("subst", s.fn, M), "x", self.rn(ctx, "i"), self.rn(ctx, "xi")))]
+        # reals_var ("x") names the FRESH output input: it is never renamed, even when a bound name coincides with it
+        return [("binders_renamed_fresh_output_name_kept", result == (("subst", s.fn, M), "x", self.rn(ctx, "i"), self.rn(ctx, ctx.dv)))]
 
 
 @register
@@ -371,7 +382,7 @@ class Gensym(Contract):
 
 @register
 class AlphaMangle(Contract):
-    """_alpha_mangle(expr): renames exactly the bound names that do not yet carry the reserved marker "__BOUND", each to a
+    """_alpha_mangle(expr) (for open AND closed terms alike): renames exactly the bound names that do not yet carry the reserved marker "__BOUND", each to a
     fresh gensym(name + "__BOUND") (so every bound name of the result carries the marker and cannot equal a user name);
     returns expr itself when there is nothing to rename; otherwise rebuilds the term through reflect with the
     alpha-converted values."""
@@ -384,9 +395,12 @@ class AlphaMangle(Contract):
 
     def structures(self, tier):
         for pat in (("i",), ("i__BOUND_3",), ("i", "j"), ("i", "j__BOUND_5"), ()):
-            yield "bound=%s" % (",".join(pat) or "-"), pat
+            for closed in (False, True):
+                yield "bound=%s,%s" % (",".join(pat) or "-", "closed-term" if closed else "open-term"), pat + (("__closed__",) if closed else ())
 
     def build(self, p, pat):
+        closed = "__closed__" in pat
+        pat = tuple(x for x in pat if x != "__closed__")
         issued = []
 
         class Interp:
@@ -404,6 +418,7 @@ class AlphaMangle(Contract):
 
         class Expr:
             bound = OrderedDict((n, "dom") for n in pat)
+            inputs = OrderedDict() if closed else OrderedDict(z="dom")  # a closed term has no free inputs
 
             def _alpha_convert(self, alpha):
                 converted.append(dict(alpha))
